@@ -60,7 +60,21 @@ type scenario struct {
 	NAfter     int   `json:"n_after"`
 	Writers    int   `json:"writers"` // goroutines writing while the closers run (results not judged)
 	Cancel     int   `json:"cancel"`  // parent context: 0 never cancelled, 1 before the closers, 2 after everything, 3 racing the closers
+	DiscOps    []int `json:"disc_ops"` // what Disconnected() does with ITS OWN connection
+	Paired     bool  `json:"paired"`   // a second connection: this one's Disconnected() kicks it (CloseWith), its Disconnected() closes this one unless already closed and writes to it
 }
+
+const (
+	dWritePacket = iota
+	dWrite
+	dBufferPacket
+	dBufferPayload
+	dCloseWith
+	dGuardedClose
+)
+
+var dCoq = []string{"DWrite", "DWrite", "DWrite", "DWrite", "DCloseWith", "DGuardedClose"}
+var dName = []string{"WritePacket", "Write", "BufferPacket", "BufferPayload", "CloseWith", "guarded-CloseUnknown"}
 
 var cCoq = []string{"CNone", "CBefore", "CAfter", "CRacing"}
 
@@ -71,6 +85,9 @@ type result struct {
 	After        []string `json:"after"`
 	Closed       bool     `json:"closed"`
 	LoopReturned bool     `json:"loop_returned"`
+	ClosersDone  bool     `json:"closers_returned"`
+	DRes         []string `json:"dres"`
+	PDisc        int      `json:"pdisc"`
 	Note         string   `json:"note,omitempty"`
 }
 
@@ -82,6 +99,7 @@ type handler struct {
 	cond    *sync.Cond
 	handled []int
 	disc    atomic.Int32
+	onDisc  func() // runs inside Disconnected(), i.e. inside the connection's teardown
 }
 
 func (h *handler) HandlePacket(pc *proto.PacketContext) {
@@ -112,12 +130,47 @@ func (h *handler) HandlePacket(pc *proto.PacketContext) {
 		panic(custom{idx})
 	}
 }
-func (h *handler) Disconnected() { h.disc.Add(1) }
+func (h *handler) Disconnected() {
+	h.disc.Add(1)
+	if h.onDisc != nil {
+		h.onDisc()
+	}
+}
 func (h *handler) Activated()    {}
 func (h *handler) Deactivated()  {}
 
 func frame(idx int) []byte {
 	return []byte{5, 0x7E, byte(idx >> 24), byte(idx >> 16), byte(idx >> 8), byte(idx)}
+}
+
+func dclass(err error) string {
+	if errors.Is(err, netmc.ErrClosedConn) {
+		return "DClosed"
+	}
+	return "DOther"
+}
+
+// ownOp is one call the handler makes on a connection from inside a teardown.
+func ownOp(mc netmc.MinecraftConn, op int) string {
+	ka := &packet.KeepAlive{RandomID: 9}
+	switch op {
+	case dWritePacket:
+		return dclass(mc.WritePacket(ka))
+	case dWrite:
+		return dclass(mc.Write([]byte{0x7E, 1}))
+	case dBufferPacket:
+		return dclass(mc.BufferPacket(ka))
+	case dBufferPayload:
+		return dclass(mc.BufferPayload([]byte{0x7E, 1}))
+	case dCloseWith:
+		return dclass(netmc.CloseWith(mc, ka))
+	default: // serverConnection.disconnect0: only close if not already closing
+		if !netmc.Closed(mc) {
+			_ = netmc.CloseUnknown(mc)
+			return "DOther"
+		}
+		return "DSkipped"
+	}
 }
 
 func wclass(err error) string {
@@ -147,6 +200,38 @@ func runScenario(sc scenario) result {
 	mc, loop := netmc.NewMinecraftConn(parent, a, proto.ServerBound, readTimeout, 5*time.Second, -1, nil)
 	mc.SetProtocol(version.Minecraft_1_21_4.Protocol)
 	mc.SetActiveSessionHandler(state.Play, h)
+	var dmu sync.Mutex
+	var dres []string
+	var ph *handler
+	if sc.Paired {
+		// the "player" of this "backend": torn down by the backend's teardown, and its own teardown comes
+		// back to the backend (which is then in the middle of closing)
+		pa, pb := net.Pipe()
+		go io.Copy(io.Discard, pb)
+		defer pb.Close()
+		ph = &handler{}
+		ph.cond = sync.NewCond(&ph.mu)
+		player, _ := netmc.NewMinecraftConn(context.Background(), pa, proto.ServerBound, 5*time.Second, 5*time.Second, -1, nil)
+		player.SetProtocol(version.Minecraft_1_21_4.Protocol)
+		player.SetActiveSessionHandler(state.Play, ph)
+		h.onDisc = func() { _ = netmc.CloseWith(player, &packet.KeepAlive{RandomID: 8}) }
+		ph.onDisc = func() {
+			r1 := ownOp(mc, dGuardedClose)
+			r2 := ownOp(mc, dWritePacket)
+			dmu.Lock()
+			dres = append(dres, r1, r2)
+			dmu.Unlock()
+		}
+	} else if len(sc.DiscOps) > 0 {
+		h.onDisc = func() {
+			for _, op := range sc.DiscOps {
+				r := ownOp(mc, op)
+				dmu.Lock()
+				dres = append(dres, r)
+				dmu.Unlock()
+			}
+		}
+	}
 	loopDone := make(chan struct{})
 	go func() { loop(); close(loopDone) }()
 	go io.Copy(io.Discard, b) // whatever the connection writes (CloseWith's packet, keep-alives)
@@ -226,7 +311,31 @@ func runScenario(sc scenario) result {
 		}()
 	}
 	close(start)
-	wg.Wait()
+	closersDone := make(chan struct{})
+	go func() { wg.Wait(); close(closersDone) }()
+	collect := func() {
+		res.Closed = netmc.Closed(mc)
+		res.Winners = int(winners.Load())
+		res.Disc = int(h.disc.Load())
+		if ph != nil {
+			res.PDisc = int(ph.disc.Load())
+		}
+		dmu.Lock()
+		res.DRes = append([]string{}, dres...)
+		dmu.Unlock()
+		h.mu.Lock()
+		res.Handled = append([]int{}, h.handled...)
+		h.mu.Unlock()
+	}
+	select {
+	case <-closersDone:
+		res.ClosersDone = true
+	case <-time.After(4 * time.Second):
+		// a close call hangs (teardown stuck): anything else we did with this connection would hang too
+		res.Note = "closing goroutines did not return within 4s"
+		collect()
+		return res
+	}
 	select {
 	case <-loopDone:
 		res.LoopReturned = true
@@ -254,12 +363,7 @@ func runScenario(sc scenario) result {
 		}
 		res.After = append(res.After, wclass(err))
 	}
-	res.Closed = netmc.Closed(mc)
-	res.Winners = int(winners.Load())
-	res.Disc = int(h.disc.Load())
-	h.mu.Lock()
-	res.Handled = append([]int{}, h.handled...)
-	h.mu.Unlock()
+	collect()
 	b.Close()
 	return res
 }
@@ -404,7 +508,26 @@ func randomScenario(r *lib.Rng, i int) scenario {
 	sc.NAfter = r.Pick(1, 4, 8)
 	sc.Writers = r.Pick(0, 0, 1, 3)
 	sc.Cancel = r.Pick(0, 0, 0, 1, 1, 2, 3, 3)
+	switch r.Intn(4) {
+	case 0:
+		sc.Paired = true
+	case 1, 2:
+		for j, n := 0, r.Range(1, 4); j < n; j++ {
+			sc.DiscOps = append(sc.DiscOps, r.Intn(6))
+		}
+	}
 	return sc
+}
+
+func dopsCoq(sc scenario) []string {
+	if sc.Paired {
+		return []string{"DGuardedClose", "DWrite"}
+	}
+	out := make([]string, len(sc.DiscOps))
+	for i, op := range sc.DiscOps {
+		out[i] = dCoq[op]
+	}
+	return out
 }
 
 func raceCount(stderr string) int { return strings.Count(stderr, "WARNING: DATA RACE") }
@@ -418,7 +541,7 @@ func main() {
 	rng := lib.NewRng(f.Seed)
 	out := lib.NewOut("C44", f)
 	out.Imports = "From Verif Require Import Model.ConnClose.\n"
-	out.Rule = "scenarios on a real connection over net.Pipe in a child process: 0..12 incoming packets whose handler returns or panics (error, string, runtime.Error index/nil map, custom value; half of the packets panic), 1..32 goroutines released together that close it (Close, CloseWith, CloseUnknown, peer closes its end = read EOF, write failure on the broken pipe; every fifth scenario has 32), 0..3 goroutines writing meanwhile, 1..8 writes (WritePacket, Write, BufferPacket, BufferPayload) started afterwards; the parent context given to NewMinecraftConn is never cancelled / cancelled before the first close / after everything / by a goroutine racing the closers; fixed scenarios for each single closer kind and each panic kind, and for each closer kind after a parent-context cancel. Distinct = distinct Coq term; non-trivial = at least one panicking packet or at least two closers."
+	out.Rule = "scenarios on a real connection over net.Pipe in a child process: 0..12 incoming packets whose handler returns or panics (error, string, runtime.Error index/nil map, custom value; half of the packets panic), 1..32 goroutines released together that close it (Close, CloseWith, CloseUnknown, peer closes its end = read EOF, write failure on the broken pipe; every fifth scenario has 32), 0..3 goroutines writing meanwhile, 1..8 writes (WritePacket, Write, BufferPacket, BufferPayload) started afterwards; the parent context given to NewMinecraftConn is never cancelled / cancelled before the first close / after everything / by a goroutine racing the closers; the handler's Disconnected() calls WritePacket/Write/BufferPacket/BufferPayload/CloseWith/a guarded CloseUnknown on its own connection, or a second (paired) connection is kicked by it and its own teardown closes-if-not-closed and writes back (player/backend cycle); fixed scenarios for each single closer kind and each panic kind, for each closer kind after a parent-context cancel, and for each closer kind with own-connection calls / a paired connection. Distinct = distinct Coq term; non-trivial = at least one panicking packet or at least two closers."
 
 	var scs []scenario
 	// fixed: every closer kind alone with every panic kind, and 32 of one kind
@@ -449,6 +572,17 @@ func main() {
 		scenario{Script: []int{hReturn}, Closers: all32(kClose), DrainFirst: true, NAfter: 2, Cancel: 3},
 		scenario{Script: []int{hReturn}, Closers: []int{kPeerClose}, DrainFirst: true, NAfter: 2, Cancel: 3},
 		scenario{Script: []int{hReturn}, Closers: []int{kClose, kCloseWith}, DrainFirst: true, NAfter: 4, Cancel: 2})
+	// the teardown handler touches its own connection / the paired connection comes back, for every trigger
+	for _, k := range []int{kClose, kCloseWith, kCloseUnknown, kPeerClose, kWriteFail} {
+		scs = append(scs,
+			scenario{Script: []int{hReturn}, Closers: []int{k}, DrainFirst: true, NAfter: 2, DiscOps: []int{dWritePacket, dWrite, dBufferPacket, dBufferPayload, dCloseWith, dGuardedClose}},
+			scenario{Script: []int{hPanicString}, Closers: []int{k}, DrainFirst: true, NAfter: 2, Paired: true})
+	}
+	for op := dWritePacket; op <= dGuardedClose; op++ {
+		scs = append(scs, scenario{Closers: []int{kClose, kClose, kCloseUnknown, kCloseWith}, DrainFirst: true, NAfter: 1, DiscOps: []int{op}})
+	}
+	scs = append(scs, scenario{Closers: all32(kClose), DrainFirst: true, NAfter: 2, Paired: true},
+		scenario{Closers: append(all32(kCloseWith), kPeerClose), DrainFirst: true, NAfter: 2, DiscOps: []int{dCloseWith, dWritePacket}})
 	n := f.Count(60)
 	for i := 0; i < n; i++ {
 		scs = append(scs, randomScenario(rng.Fork(), i))
@@ -475,9 +609,11 @@ func main() {
 			lib.ListOf(sc.Script, func(h int) string { return hCoq[h] }),
 			lib.ListOf(sc.Closers, func(k int) string { return kCoq[k] }),
 			lib.Bool(sc.DrainFirst), lib.Nat(sc.NAfter), cCoq[sc.Cancel],
+			lib.List(dopsCoq(sc)), lib.Bool(sc.Paired),
 			lib.Bool(alive),
 			lib.ListOf(r.Handled, func(x int) string { return lib.Nat(x) }),
-			lib.Nat(r.Disc), lib.Nat(r.Winners), lib.List(r.After), lib.Bool(r.Closed), lib.Bool(r.LoopReturned))
+			lib.Nat(r.Disc), lib.Nat(r.Winners), lib.List(r.After), lib.Bool(r.Closed), lib.Bool(r.LoopReturned),
+			lib.Bool(r.ClosersDone), lib.List(r.DRes), lib.Nat(r.PDisc))
 		desc := map[string]any{"scenario": sc, "alive": alive, "result": r, "race_reports": rc}
 		if !alive {
 			desc["child_stderr"] = trunc(co.stderr, 6000)
@@ -487,7 +623,10 @@ func main() {
 		for _, h := range sc.Script {
 			kinds["handler="+hName[h]] = true
 		}
-		tags := []string{"cancel=" + cCoq[sc.Cancel], fmt.Sprintf("closers=%d", len(sc.Closers)), "drain_first=" + lib.Bool(sc.DrainFirst), "alive=" + lib.Bool(alive)}
+		for _, op := range sc.DiscOps {
+			out.Tag("disc_op=" + dName[op])
+		}
+		tags := []string{"cancel=" + cCoq[sc.Cancel], "paired=" + lib.Bool(sc.Paired), fmt.Sprintf("closers=%d", len(sc.Closers)), "drain_first=" + lib.Bool(sc.DrainFirst), "alive=" + lib.Bool(alive)}
 		for k := range kinds {
 			tags = append(tags, k)
 		}
